@@ -65,10 +65,9 @@ func ParseTargetPattern(currentPackage string, pattern string) (TargetPattern, e
 		}
 	}
 
-	// Normalize the prefix by removing a trailing slash if present.
-	if len(prefix) > 0 && prefix[len(prefix)-1] == '/' {
-		prefix = prefix[:len(prefix)-1]
-	}
+	// Normalize the prefix by removing all trailing slashes so that printing the
+	// pattern and parsing it again yields the same pattern.
+	prefix = strings.TrimRight(prefix, "/")
 	return TargetPattern{prefix: prefix, targetPattern: targetPattern, recursive: recursive}, nil
 }
 
